@@ -174,6 +174,7 @@ def check_C19(tier, seed):
         # ---------------- (1) real inputs ----------------
         ev = run_hx(["push", "str:multi"], lines)
         out = {(t, h): run_hx(["load", t, h], lines) for t in F_NAMES for h in ("eager", "deferred", "resolved")}
+        api = run_bin("hx_c07", ["api"], lines)
         sp_m = run_hx(["load", "marked", "eager+spans"], lines)
         sp_mo = run_hx(["load", "markedowned", "eager+spans"], lines)
         sp_mr = run_hx(["load", "marked", "resolved+spans"], lines)
@@ -196,6 +197,10 @@ def check_C19(tier, seed):
                     if o != ref:
                         res.add_violation("node type %s (%s) holds different data / reports a different error than Yaml" % (t, h),
                                           case, yaml=ref[-500:], other=o[-500:])
+            a = api[i].split("|")
+            if len(a) != 6 or len(set(a[:4])) != 1 or a[0][:2] != base[:2] or (base.startswith("OK") and a[0] != base):
+                res.add_violation("load_from_str of the four node types disagree (with each other or with the loader "
+                                  "driven by Parser::load)", case, api=api[i][-600:], load=base[-300:])
             if not base.startswith("OK"):
                 # same error (text and position) in every mode
                 for h in ("deferred", "resolved"):
@@ -318,6 +323,12 @@ def check_C19(tier, seed):
         for j in (4, len(sents) // 2):
             if 0 <= j < len(sents):
                 res.samples.append(dict(sentence=strip_spans(sents[j])[:300], resolved=si[j].split("|")[2][:200]))
+    if tier == "thorough" and proof.get("ok"):
+        with core.Lock():
+            ok, out = core.coqchk("C19")
+        res.coverage["coqchk"] = "ok" if ok else "FAILED"
+        if not ok:
+            res.add_tie_break("coqchk rejects the compiled proofs", error=out[-1500:])
     rule = ("the C01 input space (accepted inputs: all comparisons; rejected: same error in all 12 configurations) and synthetic "
             "event sentences (every mapping of <=4 entries over 8 key kinds incl. 1/0x1, 0.0/-0.0, BadValue, complex, alias keys; "
             "random trees) x {Yaml, YamlOwned, MarkedYaml, MarkedYamlOwned} x {eager, deferred, deferred+resolved}; "
